@@ -540,3 +540,128 @@ func runC17_9(c *core.Ctx) {
 		})
 	}
 }
+
+func init() {
+	register(&core.Rule{ID: "C17.10", Prop: "C17", MinSites: 3,
+		Desc: "a server loop knows its listeners: in the server start-up functions every event loop is given its listeners map before it is registered with the load balancer or becomes the main reactor – conn.release() tells a client loop (whose connections own their local address) from a server loop (whose connections share the listener's) by len(c.loop.listeners)",
+		Run: runC17_10})
+	register(&core.Rule{ID: "C08.10", Prop: "C08", MinSites: 2,
+		Desc: "a datagram Write always becomes a datagram: no return of conn.Write (or SendTo) is reachable before the isDatagram dispatch – an early return for an empty payload would drop the empty datagram a UDP handler answers with",
+		Run: runC08_10})
+}
+
+func runC17_10(c *core.Ctx) {
+	v := vocabOf(c)
+	if v == nil {
+		return
+	}
+	listenersF := c.P.Field("", "eventloop", "listeners")
+	ingressF := c.P.Field("", "engine", "ingress")
+	if !c.Need("eventloop.listeners", listenersF) || !c.Need("engine.ingress", ingressF) {
+		return
+	}
+	for _, name := range []string{"engine.activateReactors", "engine.runEventLoops"} {
+		f := getFn(c, "", name)
+		if f == nil {
+			continue
+		}
+		// loop variables: locals of type *eventloop assigned from new(eventloop) / &eventloop{…}
+		vars := map[types.Object]int{}
+		ast.Inspect(f.Decl.Body, func(n ast.Node) bool {
+			if _, ok := n.(*ast.FuncLit); ok {
+				return false
+			}
+			if as, ok := n.(*ast.AssignStmt); ok && len(as.Lhs) == 1 && len(as.Rhs) == 1 {
+				if o, ok := flow.ObjOf(f.Info, as.Lhs[0]).(*types.Var); ok && v.isLoopPtr(o.Type()) && len(vars) < 20 {
+					if _, seen := vars[o]; !seen {
+						vars[o] = len(vars)
+					}
+				}
+			}
+			return true
+		})
+		p := &flow.Problem{Must: true}
+		p.Node = func(b *flow.Block, i int, n ast.Node, in uint64) uint64 {
+			as, ok := n.(*ast.AssignStmt)
+			if !ok || len(as.Lhs) != len(as.Rhs) {
+				return in
+			}
+			for k, l := range as.Lhs {
+				if o := flow.ObjOf(f.Info, l); o != nil {
+					if idx, isLoop := vars[o]; isLoop {
+						in &^= 1 << uint(idx) // a fresh loop object
+						// &eventloop{listeners: X}
+						ast.Inspect(as.Rhs[k], func(m ast.Node) bool {
+							if kv, ok := m.(*ast.KeyValueExpr); ok {
+								if id, ok := kv.Key.(*ast.Ident); ok && id.Name == "listeners" && !flow.IsNil(f.Info, kv.Value) {
+									in |= 1 << uint(idx)
+								}
+							}
+							return true
+						})
+					}
+				}
+				if sel, ok := ast.Unparen(l).(*ast.SelectorExpr); ok && flow.FieldOf(f.Info, sel) == listenersF && !flow.IsNil(f.Info, as.Rhs[k]) {
+					if idx, isLoop := vars[flow.ObjOf(f.Info, sel.X)]; isLoop {
+						in |= 1 << uint(idx)
+					}
+				}
+			}
+			return in
+		}
+		sol := f.Graph().Solve(p)
+		k := 0
+		sol.Walk(func(b *flow.Block, i int, n ast.Node, before uint64) {
+			check := func(e ast.Expr, what string, pos token.Pos) {
+				idx, isLoop := vars[flow.ObjOf(f.Info, e)]
+				if !isLoop {
+					return
+				}
+				k++
+				c.Check(before&(1<<uint(idx)) != 0, f.Name, what+" #"+itoa(k)+" of a loop that has its listeners", pos, exprStr(e)+".listeners was assigned before",
+					"the event loop "+exprStr(e)+" is put to work without its listeners map: conn.release() takes len(c.loop.listeners) == 0 to mean a client loop and recycles the local address zone of the loop's connections – on a server that zone belongs to the listener's shared address, so every close hands it to the byte pool")
+			}
+			for _, call := range flow.Calls(n) {
+				if cf := flow.CalleeFunc(f.Info, call); cf != nil && cf.Name() == "register" && len(call.Args) == 1 && v.isLoopPtr(f.Info.TypeOf(call.Args[0])) {
+					check(call.Args[0], "registration", call.Pos())
+				}
+			}
+			if as, ok := n.(*ast.AssignStmt); ok && len(as.Lhs) == len(as.Rhs) {
+				for kk, l := range as.Lhs {
+					if flow.FieldOf(f.Info, l) == ingressF {
+						check(as.Rhs[kk], "main reactor", as.Pos())
+					}
+				}
+			}
+		})
+	}
+}
+
+func runC08_10(c *core.Ctx) {
+	isDgramF := c.P.Field("", "conn", "isDatagram")
+	if !c.Need("conn.isDatagram", isDgramF) {
+		return
+	}
+	for _, name := range []string{"conn.Write", "conn.SendTo"} {
+		f := getFn(c, "", name)
+		if f == nil {
+			continue
+		}
+		p := &flow.Problem{Must: true}
+		p.Edge = func(e *flow.Edge, in uint64) uint64 {
+			if e.Cond != nil && e.Tag == nil {
+				if sel, ok := ast.Unparen(e.Cond).(*ast.SelectorExpr); ok && flow.FieldOf(f.Info, sel) == isDgramF {
+					in |= 1
+				}
+			}
+			return in
+		}
+		sol := f.Graph().Solve(p)
+		k := 0
+		sol.AtExit(func(b *flow.Block, facts uint64) {
+			k++
+			c.Check(facts&1 != 0, f.Name, "return #"+itoa(k)+" behind the datagram dispatch", b.Return.Pos(), "c.isDatagram was examined on the way here",
+				"a return of Conn."+f.Obj.Name()+" is reachable before c.isDatagram was examined: for a UDP conn the call ends without sendto(2) – an empty payload is a real datagram (the reply to an empty request) and would be dropped while the handler is told it was sent")
+		})
+	}
+}
